@@ -30,6 +30,19 @@ structure St where
   dials : Nat
   /-- `MaxRetry`: a tuning constant of the code (the harness reports the value in use) -/
   maxRetry : Nat := 2
+  /-- virtual time (ns) -/
+  now : Nat := 0
+  /-- negative-cache entries (`cacheFailureLocked`): key ↦ expiry.  In the code the marker occupies the key's
+  table slot (`failed` entry, no conn); here it is kept apart, with the invariant that a key never has both
+  a marker and a table entry (a dial failure happens only after the slot was emptied; a successful dial
+  replaces the marker) -/
+  markers : List (EKey × Nat) := []
+  /-- lifetime of a marker and the janitor's period (tuning constants read off the code) -/
+  failTtl : Nat := 2000000000
+  janitorIv : Nat := 250000000
+  nextJanitor : Nat := 250000000
+  /-- ghost: transport dials that failed -/
+  fails : Nat := 0
 
 def dummy : REp := ⟨⟨AP.zero, AP.zero, Scope.zero⟩, true, true, AP.zero⟩
 def init : St := { pool := fun _ => none, neps := 0, eps := fun _ => dummy, dials := 0 }
@@ -144,6 +157,81 @@ def attempts : Nat → St → Pkt → Option Found → Option Nat → Nat → Li
 /-- `handlePkt` (endpoint part) -/
 def handle (s : St) (p : Pkt) (ws : List Bool) : St × Option Nat :=
   attempts (s.maxRetry + 2) s p (lookup s p) ((lookup s p).map (·.e)) 0 ws
+
+/-! ### dial failures, the negative cache and time
+
+`attemptsD` is `attempts` with the outcome of every transport dial scripted (`ds`, missing = success) and the
+negative cache consulted: a failed dial leaves a marker under the key for `failTtl`, and while it has not
+expired `GetOrCreate` answers `ErrEndpointFailed` without dialling (`handlePkt` drops the packet silently).
+`handleD_eq_handle` (RouteProofs): without markers and with every dial succeeding it is `attempts`. -/
+
+def markerOf (s : St) (k : EKey) : Option Nat := (s.markers.find? fun m => m.1 == k).map (·.2)
+
+def clearMarker (s : St) (k : EKey) : St := { s with markers := s.markers.filter fun m => !(m.1 == k) }
+
+/-- `GetOrCreate(key)`: `none` = an error came back (unexpired failure marker, or the dial failed) -/
+def getOrCreateD (s : St) (k : EKey) (target : AP) (dialOk : Bool) : St × Option (Nat × Bool) :=
+  match get s k with
+  | some e => (s, some (e, false))
+  | none =>
+    match markerOf s k with
+    | some t =>
+      if s.now < t then (s, none)        -- ErrEndpointFailed
+      else
+        -- expired marker: dropped, then as on a miss
+        let s0 := clearMarker s k
+        if dialOk then let r := getOrCreate s0 k target; (r.1, some (r.2.1, r.2.2))
+        else ({ s0 with markers := s0.markers ++ [(k, s0.now + s0.failTtl)], fails := s0.fails + 1 }, none)
+    | none =>
+      if dialOk then let r := getOrCreate s k target; (r.1, some (r.2.1, r.2.2))
+      else
+        -- the dead entry still under the key is dropped and closed, the marker takes the slot
+        let s1 := match s.pool k with
+          | some e => setEp (setPool s k none) e { (s.eps e) with closed := true }
+          | none => s
+        ({ s1 with markers := s1.markers ++ [(k, s1.now + s1.failTtl)], fails := s1.fails + 1 }, none)
+
+def attemptsD : Nat → St → Pkt → Option Found → Option Nat → Nat → List Bool → List Bool → St × Option Nat
+  | 0, s, _, _, _, _, _, _ => (s, none)
+  | fuel + 1, s, p, found, ue, retry, ws, ds =>
+    if retry > s.maxRetry then (s, none)
+    else
+      let k := attemptKey s p found ue
+      let reuse : Bool := match found, ue with
+        | some f, some _ => retry = 0 ∧ k = f.key
+        | _, _ => false
+      let r : St × Option (Nat × Bool) :=
+        match found, ue with
+        | some f, some u => if retry = 0 ∧ k = f.key then (s, some (u, false)) else getOrCreateD s k p.d.dst (ds.headD true)
+        | _, _ => getOrCreateD s k p.d.dst (ds.headD true)
+      -- a dial outcome is consumed only when a dial was attempted
+      let dialled : Bool := !reuse && (get s k).isNone && !(match markerOf s k with | some t => decide (s.now < t) | none => false)
+      let ds' := if dialled then ds.tail else ds
+      match r.2 with
+      | none => (r.1, none)
+      | some (u, _) =>
+        let s1 := r.1
+        let w := ws.headD true
+        if writeOk s1 u w then (s1, some u)
+        else attemptsD fuel (afterFailedWrite s1 k u) p found (some u) (retry + 1) ws.tail ds'
+
+def handleD (s : St) (p : Pkt) (ws ds : List Bool) : St × Option Nat :=
+  attemptsD (s.maxRetry + 2) s p (lookup s p) ((lookup s p).map (·.e)) 0 ws ds
+
+/-- the janitor's pass at tick time `t`: expired markers leave the table (endpoints of this stream never
+reach their NAT timeout: the harness keeps a sequence shorter than the shortest one) -/
+def janitorAt (s : St) (t : Nat) : St := { s with markers := s.markers.filter fun m => !(m.2 ≤ t) }
+
+def runJanitors (target : Nat) : Nat → St → St
+  | 0, s => s
+  | fuel + 1, s =>
+    if s.nextJanitor ≤ target then
+      runJanitors target fuel { janitorAt s s.nextJanitor with nextJanitor := s.nextJanitor + s.janitorIv }
+    else s
+
+/-- `time.Sleep(dt)` -/
+def advance (s : St) (dt : Nat) : St :=
+  { runJanitors (s.now + dt) (dt / (s.janitorIv + 1) + 2) s with now := s.now + dt }
 
 /-- the transport of endpoint e reports a hard read error (the read loop retires the endpoint) -/
 def readError (s : St) (e : Nat) : St := if (s.eps e).closed then s else retire s e
